@@ -483,6 +483,30 @@ func step(e *env, op string) (res string) {
 	f := strings.Fields(op)
 	i64 := func(s string) int64 { v, _ := strconv.ParseInt(s, 10, 64); return v }
 	switch f[0] {
+	case "bsort":
+		// the real block orderings (tsm1 verif hook) on the given index-entry ranges
+		var mins, maxs []int64
+		var files []int
+		for _, it := range strings.Split(f[2], ",") {
+			p := strings.Split(it, ":")
+			mins = append(mins, i64(p[0]))
+			maxs = append(maxs, i64(p[1]))
+			files = append(files, int(i64(p[2])))
+		}
+		var order []int
+		switch f[1] {
+		case "c":
+			order = tsm1.VerifSortBlocks(mins, maxs)
+		case "asc":
+			order = tsm1.VerifSortLocations(mins, maxs, files, true)
+		default:
+			order = tsm1.VerifSortLocations(mins, maxs, files, false)
+		}
+		var out []string
+		for _, o := range order {
+			out = append(out, fmt.Sprint(o))
+		}
+		return "order " + strings.Join(out, ",")
 	case "reset":
 		e.close()
 		ents, _ := os.ReadDir(e.dir)
